@@ -277,6 +277,138 @@ pub fn main(args: &[String]) -> R<()> {
     Ok(())
 }
 
-pub fn decode_main(_args: &[String]) -> R<()> {
-    Err("not built yet".into())
+/// Expand a parametric family descriptor (MC_Decode.tla `Families`) into bytes.
+fn family(name: &str, d: usize) -> Vec<u8> {
+    let rep = |unit: &[u8], tail: &[u8]| { let mut v = Vec::with_capacity(unit.len() * d + tail.len()); for _ in 0..d { v.extend_from_slice(unit); } v.extend_from_slice(tail); v };
+    match name {
+        "list8" => rep(&[0xc0, 0xff, 0x01], &[0x40]),
+        "list32" => rep(&[0xd0, 0x00, 0xff, 0xff, 0xff, 0, 0, 0, 1], &[0x40]),
+        "map8" => rep(&[0xc1, 0xff, 0x02, 0x40], &[0x40]),
+        "array8" => rep(&[0xe0, 0xff, 0x01], &[0x40]),
+        "array32" => rep(&[0xf0, 0x00, 0xff, 0xff, 0xff, 0, 0, 0, 1], &[0x40]),
+        "described" => rep(&[0x00, 0x44], &[0x40]),
+        "described-desc" => rep(&[0x00], &[0x44, 0x40]),
+        "bin32-huge" => if d == 1 { vec![0xb0, 0x80, 0, 0, 0] } else { vec![0xb0, 0xff, 0xff, 0xff, 0xff, 1, 2, 3] },
+        "str32-huge" => if d == 1 { vec![0xb1, 0x80, 0, 0, 0] } else { vec![0xb1, 0xff, 0xff, 0xff, 0xff, 97, 98, 99] },
+        "sym32-huge" => if d == 1 { vec![0xb3, 0x80, 0, 0, 0] } else { vec![0xb3, 0xff, 0xff, 0xff, 0xff, 97, 98, 99] },
+        "list32-hugecount" => if d == 1 { vec![0xd0, 0, 0, 0, 8, 0xff, 0xff, 0xff, 0xff, 0x40, 0x40, 0x40, 0x40] } else { vec![0xd0, 0x7f, 0xff, 0xff, 0xff, 0x7f, 0xff, 0xff, 0xff, 0x40] },
+        "map32-hugecount" => if d == 1 { vec![0xd1, 0, 0, 0, 8, 0xff, 0xff, 0xff, 0xfe, 0x40, 0x40, 0x40, 0x40] } else { vec![0xd1, 0x7f, 0xff, 0xff, 0xff, 0x7f, 0xff, 0xff, 0xfe, 0x40] },
+        "array32-hugecount" => if d == 1 { vec![0xf0, 0, 0, 0, 5, 0xff, 0xff, 0xff, 0xff, 0x40] } else { vec![0xf0, 0x7f, 0xff, 0xff, 0xff, 0x7f, 0xff, 0xff, 0xff, 0x40] },
+        "array8-zerowidth" => if d == 1 { vec![0xe0, 0x02, 0xff, 0x40] } else { vec![0xf0, 0, 0, 0, 5, 0, 1, 0, 0, 0x40] },
+        other => panic!("family {other}"),
+    }
+}
+
+/// One entry point: decode, and if it decodes, re-encode and decode again (C04 idempotence).
+fn entry<T: Serialize + DeserializeOwned + Debug>(b: &[u8], reader: bool) -> (&'static str, &'static str) {
+    let r = if reader {
+        let mut src = Chunked { data: b, pos: 0, chunk: 5 };
+        guarded(|| serde_amqp::from_reader::<T>(&mut src))
+    } else {
+        guarded(|| serde_amqp::from_slice::<T>(b))
+    };
+    let idem = match &r {
+        Ok(x) => match guarded(|| serde_amqp::to_vec(x)) {
+            Ok(e) => match guarded(|| serde_amqp::from_slice::<T>(&e)) { Ok(y) if eqv(&y, x) => "ok", Ok(_) => "differs", Err("panic") => "panic", Err(_) => "redecode-err" },
+            Err("panic") => "panic",
+            Err(_) => "reencode-err",
+        },
+        Err(_) => "na",
+    };
+    (tag(&r), idem)
+}
+
+/// Messages: a message without any body section decodes to `Body::Empty`, which the encoder
+/// deliberately writes as an `amqp-value null` section (the specification demands one body
+/// section).  Idempotence is therefore judged on the bytes: enc(dec(enc(x))) == enc(x).
+fn entry_msg(b: &[u8], reader: bool) -> (&'static str, &'static str) {
+    let r = if reader {
+        let mut src = Chunked { data: b, pos: 0, chunk: 5 };
+        guarded(|| serde_amqp::from_reader::<Msg>(&mut src))
+    } else {
+        guarded(|| serde_amqp::from_slice::<Msg>(b))
+    };
+    let idem = match &r {
+        Ok(x) => match guarded(|| serde_amqp::to_vec(x)) {
+            Ok(e) => match guarded(|| serde_amqp::from_slice::<Msg>(&e)) {
+                Ok(y) => match guarded(|| serde_amqp::to_vec(&y)) { Ok(e2) if e2 == e => "ok", Ok(_) => "differs", Err("panic") => "panic", Err(_) => "reencode-err" },
+                Err("panic") => "panic",
+                Err(_) => "redecode-err",
+            },
+            Err("panic") => "panic",
+            Err(_) => "reencode-err",
+        },
+        Err(_) => "na",
+    };
+    (tag(&r), idem)
+}
+
+fn decode_case(c: &J) -> J {
+    let fam = c["k"] == "family";
+    let b: Vec<u8> = if fam { family(c["src"].as_str().unwrap(), c["b"][0].as_u64().unwrap() as usize) } else { bytes(&c["b"]) };
+    let mark = mon::alloc_mark();
+    let t0 = mon::thread_cpu_ns();
+    // Value through the slice reader: its result is logged in abstract form for the spec to judge
+    let rv = guarded(|| serde_amqp::from_slice::<Value>(&b));
+    let v = match &rv { Ok(x) if !fam => unbuild(x), _ => json!({"t": "null"}) };
+    let mut st = vec![tag(&rv)];
+    let mut idem = vec![match &rv {
+        Ok(x) => match guarded(|| serde_amqp::to_vec(x)) {
+            Ok(e) => match guarded(|| serde_amqp::from_slice::<Value>(&e)) { Ok(y) if same(&y, x) => "ok", Ok(_) => "differs", Err("panic") => "panic", Err(_) => "redecode-err" },
+            Err("panic") => "panic",
+            Err(_) => "reencode-err",
+        },
+        Err(_) => "na",
+    }];
+    let mut push = |r: (&'static str, &'static str)| { st.push(r.0); idem.push(r.1); };
+    push(entry::<Value>(&b, true));
+    push(entry::<performatives::Performative>(&b, false));
+    push(entry::<performatives::Performative>(&b, true));
+    push(entry::<fe2o3_amqp::frames::sasl::Frame>(&b, false));
+    push(entry_msg(&b, false));
+    push(entry_msg(&b, true));
+    push(entry::<messaging::DeliveryState>(&b, false));
+    push(entry::<definitions::Error>(&b, false));
+    push(entry::<messaging::Source>(&b, false));
+    // lazy value: must hold exactly the bytes of the first value
+    let lz = guarded(|| serde_amqp::from_slice::<serde_amqp::lazy::LazyValue>(&b));
+    push((tag(&lz), match (&lz, &rv) { (Ok(l), Ok(_)) => if b.starts_with(l.as_slice()) { "ok" } else { "differs" }, _ => "na" }));
+    // frame body through the AMQP frame decoder (doff 2, type 0, channel 0 prepended)
+    {
+        use tokio_util::codec::Decoder;
+        let mut src = bytes::BytesMut::with_capacity(b.len() + 4);
+        src.extend_from_slice(&[2, 0, 0, 0]);
+        src.extend_from_slice(&b);
+        let r = match catch_unwind(AssertUnwindSafe(|| (fe2o3_amqp::frames::amqp::FrameDecoder {}).decode(&mut src))) { Ok(Ok(_)) => "ok", Ok(Err(_)) => "err", Err(_) => "panic" };
+        push((r, "na"));
+        let mut src = bytes::BytesMut::with_capacity(b.len() + 4);
+        src.extend_from_slice(&[2, 1, 0, 0]);
+        src.extend_from_slice(&b);
+        let r = match catch_unwind(AssertUnwindSafe(|| (fe2o3_amqp::frames::sasl::FrameCodec {}).decode(&mut src))) { Ok(Ok(_)) => "ok", Ok(Err(_)) => "err", Err(_) => "panic" };
+        push((r, "na"));
+    }
+    let cpu_ms = (mon::thread_cpu_ns() - t0) / 1_000_000;
+    let peak_kb = mon::alloc_peak_since(mark) / 1024;
+    let panic = mon::take_panic().unwrap_or_default();
+    json!({"k": c["k"], "src": c["src"], "b": if fam { json!([]) } else { c["b"].clone() }, "n": b.len().min(1 << 30), "arg": if fam { c["b"][0].clone() } else { json!(0) },
+           "v": v, "st": st, "idem": idem, "peak_kb": peak_kb.min(1 << 30), "cpu_ms": cpu_ms.min(1 << 30), "panic": panic.chars().take(160).collect::<String>()})
+}
+
+/// vh decode <cases.ndjson> <out.ndjson> [first-index]   (appends to out; one flushed line per case)
+pub fn decode_main(args: &[String]) -> R<()> {
+    mon::quiet_panics();
+    let inp = std::fs::read_to_string(&args[0]).map_err(|e| e.to_string())?;
+    let from: usize = args.get(2).map(|s| s.parse().unwrap()).unwrap_or(0);
+    let mut out = std::fs::OpenOptions::new().create(true).append(true).open(&args[1]).map_err(|e| e.to_string())?;
+    let lines: Vec<String> = inp.lines().filter(|l| !l.trim().is_empty()).map(|s| s.to_string()).collect();
+    // tokio worker threads have 2 MiB stacks: decode under the same budget
+    let h = std::thread::Builder::new().stack_size(2 << 20).spawn(move || -> R<()> {
+        for line in lines.iter().skip(from) {
+            let c: J = serde_json::from_str(line).map_err(|e| e.to_string())?;
+            let r = decode_case(&c);
+            writeln!(out, "{}", r).map_err(|e| e.to_string())?;
+        }
+        Ok(())
+    }).map_err(|e| e.to_string())?;
+    h.join().map_err(|_| "decode thread panicked".to_string())?
 }
